@@ -132,6 +132,16 @@ def run_dec_cases(ctx, cases, tag):
         ctx.dist['dec-result-' + (io.split(' ')[0] + (io[3:] if io.startswith('err') else ''))] += 1
         if c['info']:
             ctx.dist['dec-info-only'] += 1
+        if c.get('edition_altered') and mo == 'err 2' and io in ('err 1', 'err 6', 'err 14'):
+            # under another edition's layout the "section 2 present" flag is read from another octet; when it comes out
+            # set, the descriptor list is read from the octets of the data section.  The framing model's template decoder
+            # knows the 031031 templates of these messages only (anything else: unknown descriptor); the real one builds
+            # a template from the garbage first (malformed replication: PyBufrKitError) or runs out of bits.  Both refuse
+            # with a library error; which one is not a question about framing
+            # (err 14: the garbage held an operator the library does not implement, e.g. 211160: NotImplementedError;
+            # the library has no Table C, every 2XXYYY is an operator to it: an observation, not a question about framing)
+            ctx.dist['edition altered: descriptor list read from data octets, both refuse (%s)' % ('library error' if io != 'err 14' else 'NotImplementedError for an operator the library does not implement')] += 1
+            continue
         rec = dict(c)
         rec['op'] = 'dec'
         h = holds_decode(c, io, obj)
@@ -323,6 +333,7 @@ def run(ctx):
             bad = bytearray(b)
             bad[7] = e2
             add(bad)
+            dcases[-1]['edition_altered'] = True
         # truncation around every section boundary
         cuts = set()
         for k, (pos, n) in f['sections'].items():
